@@ -167,7 +167,7 @@ CHECKS = {
         technique='TLA+ spec Props.tla (declaration table, Get/Set/GetAll/Assign history machine) model-checked by TLC; graph '
                   'replayed through handleMethodCallMessage; recorded histories validated by TLC',
         text='TLC explores all histories of local assignment and remote Get/Set/GetAll (right, empty and unknown interface; '
-             'right and unknown property) over six declarations: same name on two interfaces, declarations split between a base '
+             'right and unknown property) over eight declarations: same name on two interfaces, declarations split between a base '
              'class and a subclass, all access modes and notification modes, basic types incl. a double holding a Python int. '
              'Every edge and random walks are replayed on a real exported object; the variant type is read from the raw reply '
              'bytes, PropertiesChanged from sendMessage; random histories with more values are validated by TLC.',
